@@ -9,6 +9,7 @@ import (
 	"bytes"
 	"encoding/json"
 	"fmt"
+	"github.com/relex/slog-agent/output/fluentdforward"
 	"os"
 	"path/filepath"
 	"runtime"
@@ -211,7 +212,9 @@ type caseOut struct {
 	dump     string
 }
 
-func matchID(id string) bool { return strings.HasSuffix(id, ".ff") }
+// matchID is the product's own test for "this file name is a chunk of the Forward output" (not a copy of it: a change to the
+// matcher is a change to what recovery picks up)
+var matchID = (&fluentdforward.Config{}).MatchChunkID
 
 func listDir(dir string) map[string][]byte {
 	out := map[string][]byte{}
